@@ -1,0 +1,35 @@
+package server
+
+import (
+	"context"
+
+	"go.lsp.dev/jsonrpc2"
+	"go.lsp.dev/protocol"
+)
+
+// requestFeature names, for every request that belongs to a switchable feature, the
+// switch that governs it.
+var requestFeature = map[string]func(featureSettings) bool{
+	protocol.MethodTextDocumentHover:        func(f featureSettings) bool { return f.Hover },
+	protocol.MethodTextDocumentCompletion:   func(f featureSettings) bool { return f.Completion },
+	protocol.MethodTextDocumentFormatting:   func(f featureSettings) bool { return f.Formatting },
+	protocol.MethodSemanticTokensFull:       func(f featureSettings) bool { return f.SemanticTokens },
+	protocol.MethodSemanticTokensFullDelta:  func(f featureSettings) bool { return f.SemanticTokens },
+	protocol.MethodSemanticTokensRange:      func(f featureSettings) bool { return f.SemanticTokens },
+	protocol.MethodTextDocumentCodeAction:   func(f featureSettings) bool { return f.CodeActions },
+	protocol.MethodTextDocumentFoldingRange: func(f featureSettings) bool { return f.FoldingRanges },
+	protocol.MethodTextDocumentDocumentLink: func(f featureSettings) bool { return f.DocumentLinks },
+	protocol.MethodWorkspaceSymbol:          func(f featureSettings) bool { return f.WorkspaceSymbol },
+}
+
+// FeatureGate answers a request of a feature that is switched off in the current settings
+// with null and hands everything else to next. Capabilities are advertised once, by
+// Initialize; a switch changed later through the configuration takes effect here.
+func (s *Server) FeatureGate(next jsonrpc2.Handler) jsonrpc2.Handler {
+	return func(ctx context.Context, reply jsonrpc2.Replier, req jsonrpc2.Request) error {
+		if enabled, ok := requestFeature[req.Method()]; ok && !enabled(s.getSettings().Features) {
+			return reply(ctx, nil, nil)
+		}
+		return next(ctx, reply, req)
+	}
+}
